@@ -555,6 +555,9 @@ fn from_wire(c: &mut Ctx) {
             } else {
                 chk_rel(c, fam, idx, "UncertainName::from_octets", o, &ex);
             }
+        } else if ref_abs || ref_rel {
+            let rp = c.replay_of(fam, idx, ex());
+            c.violation("reject-valid:UncertainName::from_octets", &format!("UncertainName::from_octets rejected the valid name {:?}", hex(&w)), rp);
         }
         if let Some((o, pos)) = &pn {
             chk_abs(c, fam, idx, "Name::parse", o, &ex);
@@ -1288,8 +1291,213 @@ fn ops_case(c: &mut Ctx, fam: &str, idx: u64, rng: &mut Rng, w: &[u8], other: &[
     }
 }
 
+
+// ------------------------------------------------------------ serde routes --
+
+/// The hand-written `Deserialize` impls are constructors like any other: over a compact format
+/// they receive raw octets (and must validate them), over a human readable one presentation
+/// text. Every value they hand out must be a name, valid names must be accepted, and a value
+/// serialized over either route must come back as the same octets.
+fn serde_routes(c: &mut Ctx) {
+    use crate::sd::{self, Wrote};
+    use domain::base::name::OwnedLabel;
+    let fam = "serde";
+    let total = c.total(150_000, 12_000_000);
+    for idx in c.cases(fam, total) {
+        if c.out_of_time() {
+            break;
+        }
+        let mut rng = c.case_rng(fam, idx);
+        if rng.chance(1, 5) {
+            // labels: 0..=70 octets of anything
+            let l = match rng.below(4) { 0 => rng.range(60, 70) as usize, _ => rng.below(66) as usize };
+            let lab: Vec<u8> = (0..l).map(|_| if rng.chance(1, 3) { rng.below(256) as u8 } else { b'a' + rng.below(26) as u8 }).collect();
+            let ex = || json!({"label": hex(&lab)});
+            let r = c.guard(fam, idx, ex, || {
+                let o = sd::de_owned::<OwnedLabel>(&lab).ok().map(|l| l.as_label().as_slice().to_vec());
+                let b = sd::de_borrowed::<OwnedLabel>(&lab).ok().map(|l| l.as_label().as_slice().to_vec());
+                let t = sd::de_transient::<OwnedLabel>(&lab).ok().map(|l| l.as_label().as_slice().to_vec());
+                (o, b, t)
+            });
+            let Some((o, b, t)) = r else { continue };
+            for (api, v) in [("serde-compact:OwnedLabel:owned", &o), ("serde-compact:OwnedLabel:borrowed", &b), ("serde-compact:OwnedLabel:transient", &t)] {
+                if let Some(got) = v {
+                    if got.len() > 63 || got != &lab {
+                        let rp = c.replay_of(fam, idx, ex());
+                        c.violation(&format!("invalid-label:{}{}", api, if got.len() > 63 { ":len>63" } else { ":octets-differ" }), &format!("{} produced a label of {} octets from {} octets", api, got.len(), lab.len()), rp);
+                    }
+                    c.count("serde_labels", 1);
+                }
+            }
+            if lab.len() <= 63 && o.is_none() && b.is_none() && t.is_none() {
+                let rp = c.replay_of(fam, idx, ex());
+                c.violation("reject-valid:serde-compact:OwnedLabel", &format!("no compact route accepts the valid label {}", hex(&lab)), rp);
+            }
+            // a label that exists: both routes give it back
+            if lab.len() <= 63 {
+                let r = c.guard(fam, idx, ex, || {
+                    let ol = OwnedLabel::from_label(domain::base::name::Label::from_slice(&lab).unwrap());
+                    let w = sd::ser_compact(&ol).ok();
+                    let txt = sd::ser_text(&ol).ok();
+                    let back = txt.as_ref().and_then(|t| sd::de_text::<OwnedLabel>(t).ok()).map(|l| l.as_label().as_slice().to_vec());
+                    (w, txt, back)
+                });
+                if let Some((w, txt, back)) = r {
+                    if w != Some(Wrote::Bytes(lab.clone())) {
+                        c.violation("serde-roundtrip:compact:OwnedLabel", &format!("label {} serialized compactly as {:?}", hex(&lab), w), c.replay_of(fam, idx, ex()));
+                    }
+                    if !lab.is_empty() && back.as_ref() != Some(&lab) {
+                        c.violation("serde-roundtrip:text:OwnedLabel", &format!("label {} written as {:?} read back as {:?}", hex(&lab), txt, back.as_ref().map(|b| hex(b))), c.replay_of(fam, idx, ex()));
+                    }
+                }
+            }
+            c.eval(&("serde-label", lab.len().min(70), o.is_some(), b.is_some(), t.is_some()));
+            continue;
+        }
+        let w = match rng.below(10) {
+            0..=2 => names::abs_name(&mut rng),
+            3..=5 => names::rel_name(&mut rng, 300),
+            6 | 7 => {
+                let l = rng.range(252, 258);
+                let mut n = names::max_name(&mut rng, l);
+                if rng.bool() {
+                    n.pop();
+                }
+                n
+            }
+            _ => names::hostile_wire(&mut rng),
+        };
+        let ref_abs = validate_abs_name(&w).is_ok();
+        let ref_rel = validate_rel_name(&w).is_ok();
+        let ex = || json!({"input": hex(&w)});
+        let r = c.guard(fam, idx, ex, || {
+            let a = sd::de_owned::<Name<Vec<u8>>>(&w).ok().map(|n| n.as_slice().to_vec());
+            let a2 = sd::de_borrowed::<Name<Bytes>>(&w).ok().map(|n| n.as_slice().to_vec());
+            let a3 = sd::de_transient::<Name<Vec<u8>>>(&w).ok().map(|n| n.as_slice().to_vec());
+            let r = sd::de_owned::<RelativeName<Vec<u8>>>(&w).ok().map(|n| n.as_slice().to_vec());
+            let r2 = sd::de_borrowed::<RelativeName<Bytes>>(&w).ok().map(|n| n.as_slice().to_vec());
+            let u = sd::de_owned::<UncertainName<Vec<u8>>>(&w).ok().map(|u| (u.is_absolute(), u.as_slice().to_vec()));
+            let u2 = sd::de_borrowed::<UncertainName<Bytes>>(&w).ok().map(|u| (u.is_absolute(), u.as_slice().to_vec()));
+            (a, a2, a3, r, r2, u, u2)
+        });
+        let Some((a, a2, a3, r, r2, u, u2)) = r else { continue };
+        for (api, v) in [("serde-compact:Name:owned", &a), ("serde-compact:Name:borrowed", &a2), ("serde-compact:Name:transient", &a3)] {
+            if let Some(o) = v {
+                chk_abs(c, fam, idx, api, o, &ex);
+                if o != &w {
+                    c.violation(&format!("serde-roundtrip:{}", api), "deserializing changed the octets", c.replay_of(fam, idx, ex()));
+                }
+                c.count("serde_names", 1);
+            }
+        }
+        if ref_abs && (a.is_none() || a2.is_none()) {
+            let rp = c.replay_of(fam, idx, ex());
+            c.violation("reject-valid:serde-compact:Name", &format!("compact deserialization rejected the valid name {}", hex(&w)), rp);
+        }
+        for (api, v) in [("serde-compact:RelativeName:owned", &r), ("serde-compact:RelativeName:borrowed", &r2)] {
+            if let Some(o) = v {
+                chk_rel(c, fam, idx, api, o, &ex);
+                c.count("serde_names", 1);
+            } else if ref_rel {
+                let rp = c.replay_of(fam, idx, ex());
+                c.violation(&format!("reject-valid:{}", api), &format!("{} rejected the valid relative name {}", api, hex(&w)), rp);
+            }
+        }
+        for (api, v) in [("serde-compact:UncertainName:owned", &u), ("serde-compact:UncertainName:borrowed", &u2)] {
+            if let Some((abs, o)) = v {
+                if *abs {
+                    chk_abs(c, fam, idx, api, o, &ex);
+                } else {
+                    chk_rel(c, fam, idx, api, o, &ex);
+                }
+                c.count("serde_names", 1);
+            } else if ref_abs || ref_rel {
+                let rp = c.replay_of(fam, idx, ex());
+                c.violation(&format!("reject-valid:{}", api), &format!("{} rejected the valid name {}", api, hex(&w)), rp);
+            }
+        }
+        // values that exist: serialize over both routes, read back
+        if ref_abs || ref_rel {
+            let r = c.guard(fam, idx, ex, || {
+                if ref_abs {
+                    let n = Name::from_octets(w.clone()).unwrap();
+                    let wr = sd::ser_compact(&n).ok();
+                    let txt = sd::ser_text(&n).ok();
+                    let back = txt.as_ref().and_then(|t| sd::de_text::<Name<Vec<u8>>>(t).ok()).map(|n| n.as_slice().to_vec());
+                    let backu = txt.as_ref().and_then(|t| sd::de_text::<UncertainName<Vec<u8>>>(t).ok()).map(|n| n.as_slice().to_vec());
+                    (wr, txt, back, backu)
+                } else {
+                    let n = RelativeName::from_octets(w.clone()).unwrap();
+                    let wr = sd::ser_compact(&n).ok();
+                    let txt = sd::ser_text(&n).ok();
+                    let back = txt.as_ref().and_then(|t| sd::de_text::<RelativeName<Vec<u8>>>(t).ok()).map(|n| n.as_slice().to_vec());
+                    let backu = txt.as_ref().and_then(|t| sd::de_text::<UncertainName<Vec<u8>>>(t).ok()).map(|n| n.as_slice().to_vec());
+                    (wr, txt, back, backu)
+                }
+            });
+            if let Some((wr, txt, back, backu)) = r {
+                let kind = if ref_abs { "Name" } else { "RelativeName" };
+                if wr != Some(Wrote::Bytes(w.clone())) {
+                    c.violation(&format!("serde-roundtrip:compact:{}", kind), &format!("{} {} serialized compactly as {:?}", kind, hex(&w), wr), c.replay_of(fam, idx, ex()));
+                }
+                // an empty relative name has no presentation form of its own
+                if !(kind == "RelativeName" && w.is_empty()) {
+                    if back.as_ref() != Some(&w) {
+                        let rp = c.replay_of(fam, idx, json!({"input": hex(&w), "text": txt}));
+                        c.violation(&format!("serde-roundtrip:text:{}", kind), &format!("{} {} written as {:?} read back as {:?}", kind, hex(&w), txt, back.as_ref().map(|b| hex(b))), rp);
+                    }
+                    // (a Name is written without the trailing dot, so only a relative name keeps its kind as an UncertainName)
+                    if kind == "RelativeName" && backu.as_ref() != Some(&w) {
+                        let rp = c.replay_of(fam, idx, json!({"input": hex(&w), "text": txt}));
+                        c.violation(&format!("serde-roundtrip:text:{}-as-UncertainName", kind), &format!("{} {} written as {:?} read back as uncertain name {:?}", kind, hex(&w), txt, backu.as_ref().map(|b| hex(b))), rp);
+                    }
+                }
+                c.count("serde_roundtrips", 1);
+            }
+        }
+        // presentation text through the human readable route: whatever comes out is a name, and the
+        // verdict is that of FromStr
+        let text = if rng.chance(1, 3) { names::hostile_text(&mut rng) } else { let n = if rng.bool() { names::abs_name(&mut rng) } else { { let l = rng.range(250, 256); names::max_name(&mut rng, l) } }; let dot = rng.bool(); names::presentation(&mut rng, &n, dot) };
+        let ext = || json!({"text": text});
+        let rt = c.guard(fam, idx, ext, || {
+            let a = sd::de_text::<Name<Vec<u8>>>(&text).ok().map(|n| n.as_slice().to_vec());
+            let fa = Name::<Vec<u8>>::from_str(&text).ok().map(|n| n.as_slice().to_vec());
+            let r = sd::de_text::<RelativeName<Vec<u8>>>(&text).ok().map(|n| n.as_slice().to_vec());
+            let u = sd::de_text::<UncertainName<Bytes>>(&text).ok().map(|u| (u.is_absolute(), u.as_slice().to_vec()));
+            let fu = UncertainName::<Vec<u8>>::from_str(&text).ok().map(|u| (u.is_absolute(), u.as_slice().to_vec()));
+            (a, fa, r, u, fu)
+        });
+        let ra = a.is_some();
+        let rr = r.is_some();
+        let ru = u.as_ref().map(|x| x.0);
+        if let Some((a, fa, r, u, fu)) = rt {
+            if let Some(o) = &a {
+                chk_abs(c, fam, idx, "serde-text:Name", o, &ext);
+            }
+            if a != fa {
+                c.violation("serde-text:Name-vs-from_str", &format!("deserializing {:?} as Name gives {:?}, from_str {:?}", text, a.as_ref().map(|x| hex(x)), fa.as_ref().map(|x| hex(x))), c.replay_of(fam, idx, ext()));
+            }
+            if let Some(o) = &r {
+                chk_rel(c, fam, idx, "serde-text:RelativeName", o, &ext);
+            }
+            if let Some((abs, o)) = &u {
+                if *abs {
+                    chk_abs(c, fam, idx, "serde-text:UncertainName", o, &ext);
+                } else {
+                    chk_rel(c, fam, idx, "serde-text:UncertainName", o, &ext);
+                }
+            }
+            if u != fu {
+                c.violation("serde-text:UncertainName-vs-from_str", &format!("deserializing {:?} as UncertainName differs from from_str", text), c.replay_of(fam, idx, ext()));
+            }
+            c.count("serde_texts", 1);
+        }
+        c.eval(&("serde", ref_abs, ref_rel, ra, rr, ru, w.len().min(257) / 16));
+    }
+}
+
 pub fn run(c: &mut Ctx) {
-    c.families(9);
+    c.families(10);
     builder_boundary::<Vec<u8>>(c, "Vec");
     builder_boundary::<BytesMut>(c, "BytesMut");
     builder_sequences::<Vec<u8>>(c, "Vec");
@@ -1298,6 +1506,7 @@ pub fn run(c: &mut Ctx) {
     compressed_wire(c);
     from_text(c);
     scanner_names(c);
+    serde_routes(c);
     ops(c);
     if c.scale >= 1.0 && !c.is_quick() {
         c.exhaustive = Some(true);
@@ -1311,5 +1520,8 @@ pub fn run(c: &mut Ctx) {
     c.floor("compressed_pointer_first_names", 100);
     c.floor("scan_invalid_refused", 100);
     c.floor("chains", 10);
+    c.floor("serde_names", 1000);
+    c.floor("serde_roundtrips", 1000);
+    c.floor("serde_labels", 100);
     c.floor("slices", 100);
 }
